@@ -175,3 +175,14 @@ def build_harness(release=False):
                            env={"RUSTFLAGS": "--cfg tss_verif -Awarnings", "CARGO_TARGET_DIR": TARGET})
         binp = os.path.join(TARGET, "release" if release else "debug", "tss-harness")
         return rc == 0 and os.path.exists(binp), binp, (out + err)[-6000:]
+
+
+def build_server_bin():
+    """the real executable, built from the repository's working tree"""
+    tgt = os.path.join(CACHE, "repo-target") if REPO == "/repo" else os.path.join(REPO, "target-bin")
+    with Lock("serverbin-" + os.path.basename(tgt)):
+        rc, out, err = run(["cargo", "build", "--offline", "--quiet", "--manifest-path", os.path.join(REPO, "Cargo.toml"),
+                            "--bin", "taskchampion-sync-server"], timeout=2400,
+                           env={"CARGO_TARGET_DIR": tgt, "RUSTFLAGS": "-Awarnings"})
+        binp = os.path.join(tgt, "debug", "taskchampion-sync-server")
+        return rc == 0 and os.path.exists(binp), binp, (out + err)[-4000:]
